@@ -140,7 +140,7 @@ var kinds = map[string]Kind{
 	"kshold-gcf": {Name: "kshold-gcf", JIT: "keysend", InvDelta: rejectDelta, KsHold: ksHoldTime, GcFly: true},
 	// canceled invoices are deleted when they are canceled / when the registry starts
 	"regular-gcs": {Name: "regular-gcs", Value: valueV, InvDelta: 12, GcStart: true},
-	"hold-gcf":    {Name: "hold-gcf", Value: valueV, Hold: true, InvDelta: 12, GcFly: true},
+	"hold-gc":     {Name: "hold-gc", Value: valueV, Hold: true, InvDelta: 12, GcFly: true, GcStart: true},
 	"amp-gcf":     {Name: "amp-gcf", Value: valueV, AMP: true, InvDelta: 12, GcFly: true, GcStart: true},
 	// spontaneous payments are accepted while the payment goes to an invoice created up front
 	"regular-jit": {Name: "regular-jit", Value: valueV, InvDelta: 12, AcceptAll: true},
@@ -191,6 +191,14 @@ func (k Kind) invoice() *invpkg.Invoice {
 		inv.Terms.PaymentPreimage = &p
 	}
 	return inv
+}
+
+// rightPreimage is the preimage SettleHodlInvoice must be called with.
+func (k Kind) rightPreimage() lntypes.Preimage {
+	if k.JIT == "keysend" {
+		return ksPreimage
+	}
+	return invPreimage
 }
 
 func (k Kind) invoiceHash() lntypes.Hash {
